@@ -1,5 +1,5 @@
 """C05 — total and robust on boundary and degenerate inputs: the exact-arithmetic boundary (claimed part)."""
-from . import grid, e3sets, clipwire, halfspace
+from . import grid, e3sets, clipwire, halfspace, surfaces
 from .. import smt, runner, kani
 from .c10 import A_ROUND
 
@@ -16,6 +16,14 @@ def run(tier, seed):
         o3, u3 = f("C05"); obs += o3; fns += [{"fn": u.label, "slice_sha": u.sha} for u in u3]
     smt.discharge_all(obs, tier)
     results = [runner.from_smt(o) for o in obs]
+    # 'exact and near-exact (perturbation 0..1e-6) lattices ... terminates without panicking': NOT decided by any contract - bounded stand-ins
+    U = "Voronoi::build on m^d lattices with perturbed generators (public API, real crate)"
+    n1, b1 = surfaces.lattice_probe((0.0, 1e-11, 5e-11, 1e-9, 1e-6), seeds=(0, 1) if tier == "quick" else (0, 1, 2, 3, 4, 5))
+    results.append(surfaces.result("C05.bounded.exact_lattices_and_lattices_perturbed_by_1e-11_to_1e-6_build_and_tile_the_box", U,
+                                   "%d tessellations: 4^3, 3^3, 5^2 lattices, periodic and reflective, perturbation amplitudes 0, 1e-11, 5e-11, 1e-9, 1e-6", n1, b1))
+    n2, b2 = surfaces.lattice_probe((1e-15, 1e-14, 1e-13), seeds=(0,) if tier == "quick" else (0, 1, 2))
+    results.append(surfaces.result("C05.bounded.lattices_perturbed_by_1e-15_to_1e-13_build_and_tile_the_box", U,
+                                   "%d tessellations: the same lattices, perturbation amplitudes 1e-15, 1e-14, 1e-13", n2, b2))
     results += grid.kani_results("C05", tier)
     results += kani.run_specs("C05", e3sets.HALF_SPACE, tier)
     fns += [{"fn": x, "backend": "Kani on the real crate"} for x in (grid.UNIT_E3, e3sets.U_HS_NEW, e3sets.U_HS_CLIP, e3sets.U_DOT)]
